@@ -39,7 +39,15 @@ func offsetOf(src string, line, col int) int {
 		}
 		off++
 	}
-	if l != line {
+	if l != line || col < 0 {
+		return -1
+	}
+	// the column lies within that line (or just behind its last byte): a wrong line with a column that happens to
+	// flatten to the right byte is still a wrong position
+	if eol := strings.IndexByte(src[off:], '\n'); eol >= 0 && col > eol {
+		return -1
+	}
+	if off+col > len(src) {
 		return -1
 	}
 	return off + col
@@ -461,7 +469,7 @@ func c20Run(c core.Case) core.Result {
 		}
 		if line, col, ok := errPos(err); ok {
 			off := offsetOf(src, line, col)
-			if !c20TokenStarts(src)[off] && !strings.Contains(src, "#{") {
+			if (off < 0 || !c20TokenStarts(src)[off]) && !strings.Contains(src, "#{") {
 				return core.Violation("error-position", fmt.Sprintf("%q: error %q reports %d:%d, which is not the start of a token nor the end of input", src, err, line, col))
 			}
 		}
